@@ -9730,12 +9730,12 @@ class Inquire_Stmt(StmtBase):  # R929
         line = string[7:].lstrip()
         if not line.startswith("("):
             return
-        if line.endswith(")"):
-            return Inquire_Spec_List(line[1:-1].strip()), None, None
         line, repmap = string_replace_map(line)
         i = line.find(")")
         if i == -1:
             return
+        if i == len(line) - 1:
+            return Inquire_Spec_List(repmap(line[1:-1]).strip()), None, None
         tmp = repmap(line[1:i])
         if tmp[:8].upper() != "IOLENGTH":
             return
